@@ -364,6 +364,29 @@ fn run_inner(case: &SchedCase, obs: &mut dyn Observer, dir: &str, tail: Option<T
                 match &outcome {
                     Outcome::Ok(_) => r.record_write(op)?,
                     Outcome::Err(e) => {
+                        if trace::fired_faults() > 0 && !e.contains("Failed to send request") && case.faults.iter().any(|f| f.kind == Sk::Create) {
+                            // An injected failure to create the next chunk file surfaced in this call. The record itself was
+                            // journalled and applied before the rotation was attempted (a batch stops at that entry): follow
+                            // what the store reports and carry on; later flushes, crashes and reads must still be right.
+                            let last_now = r.st.state().last;
+                            let mut m2 = r.m.clone();
+                            let (recs, _) = Gen::apply_to_model(&mut m2, op);
+                            let mut applied = recs.len();
+                            if let Op::Append(es) = op {
+                                applied = es.iter().position(|(id, _)| Some(*id) == last_now).map(|p| p + 1).unwrap_or(0);
+                            }
+                            for rec in recs.into_iter().take(applied) {
+                                r.m.apply(&rec);
+                                r.recs.push(rec);
+                                r.models.push(r.m.clone());
+                            }
+                            trace::note(Ek::OpEnd { op: i as u32, ok: false });
+                            let n = case.sched.get(i).copied().unwrap_or(0);
+                            r.release(n, obs, true)?;
+                            r.steps.push(StepRec { ev_begin, ev_end: trace::ev_count(), writes_before: wb, writes_after: r.recs.len(), outcome });
+                            completed = i + 1;
+                            continue;
+                        }
                         if trace::fired_faults() > 0 {
                             stop_reason = format!("write failed after injected fault: {}", e);
                             trace::note(Ek::OpEnd { op: i as u32, ok: false });
